@@ -342,6 +342,10 @@ inline void runFaulted(Ctx& c, const StreamSet& S, const std::vector<FFrame>& L,
     }
 
     ASAM::CMP::Decoder dec;
+    // a copy of the decoder taken somewhere in the faulted stream and fed the same frames from then on, next to the original:
+    // it is a decoder with the same history and owes the same deliveries
+    std::unique_ptr<ASAM::CMP::Decoder> twin;
+    const size_t twinAt = (L.size() >= 3 && L.size() <= 400) ? mix64(L.size(), L[0].raw.size()) % (L.size() - 1) : L.size();
     std::vector<Bytes> fed;
     char buf[300];
     std::map<int, std::vector<size_t>> deliveredAt;
@@ -349,7 +353,30 @@ inline void runFaulted(Ctx& c, const StreamSet& S, const std::vector<FFrame>& L,
     {
         fed.push_back(L[call].raw);
         c.note("faults=" + faultLog + " stream=" + describeFrames(fed, call));
+        if (call == twinAt)
+        {
+            twin = std::make_unique<ASAM::CMP::Decoder>(dec);
+            c.count("decoder_twins_used_next_to_the_original");
+        }
+        std::vector<std::shared_ptr<ASAM::CMP::Packet>> gotTwin;
+        const bool twinFirst = twin && (call % 2 == 0);
+        if (twinFirst)
+            gotTwin = decodeCopy(*twin, L[call].raw);
         auto got = decodeCopy(dec, L[call].raw);
+        if (twin && !twinFirst)
+            gotTwin = decodeCopy(*twin, L[call].raw);
+        if (twin)
+        {
+            bool same = gotTwin.size() == got.size();
+            for (size_t i = 0; same && i < got.size(); ++i)
+                same = got[i] && gotTwin[i] && snapPacket(*got[i]) == snapPacket(*gotTwin[i]);
+            if (!same)
+            {
+                snprintf(buf, sizeof buf, "call %zu: a copy of the decoder taken at call %zu and fed the same frames delivers %zu packets (or other packets), the original %zu", call, twinAt,
+                         gotTwin.size(), got.size());
+                c.violation("C06:copy-of-decoder-delivers-differently", buf, "faults=" + faultLog + " stream=" + describeFrames(fed, call, 300));
+            }
+        }
         ++c.evaluations;
         auto input = [&]() { return "faults=" + faultLog + " stream=" + describeFrames(fed, call, 300); };
         std::vector<int> deliveredIdx;
